@@ -201,6 +201,7 @@ func TestC11RoundTrip(t *testing.T) {
 // ---------------------------------------------------------------- (b) cache files written by hand / other tools
 
 type c11CacheLine struct {
+	V6     string `json:"ipv6_address,omitempty"` // a neighbour with an IPv6 address: says nothing about any IPv4 destination
 	IP     uint32 `json:"ip"`
 	Mapped bool   `json:"mapped_spelling"`
 	MAC    []byte `json:"mac"`
@@ -210,6 +211,9 @@ type c11CacheLine struct {
 
 func (l c11CacheLine) render() string {
 	ip := gram.U32String(l.IP)
+	if l.V6 != "" {
+		ip = l.V6
+	}
 	if l.Mapped {
 		ip = "::ffff:" + ip
 	}
@@ -238,6 +242,10 @@ func c11GenLines(t *rapid.T, n int) []c11CacheLine {
 		if i > 0 && rapid.IntRange(0, 3).Draw(t, "dup") == 0 {
 			l.IP = ls[kit.Uniform(t, "dupof", i)].IP
 		}
+		if rapid.IntRange(0, 7).Draw(t, "v6line") == 0 {
+			l.V6 = rapid.SampledFrom([]string{"fe80::1", "fe80::a00:27ff:fe12:3456", "2001:db8::7", "::1", "::"}).Draw(t, "v6")
+			l.Mapped = false
+		}
 		ls = append(ls, l)
 	}
 	return ls
@@ -249,7 +257,9 @@ func c11FileCheck(c c11FileCase) *kit.Verdict {
 	last := map[uint32][]byte{}
 	for _, l := range c.Lines {
 		sb.WriteString(l.render() + "\n")
-		last[l.IP] = l.MAC
+		if l.V6 == "" {
+			last[l.IP] = l.MAC
+		}
 	}
 	cache := arp.NewCache()
 	if err := arp.FillCache(cache, strings.NewReader(sb.String())); err != nil {
@@ -266,10 +276,13 @@ func c11FileCheck(c c11FileCase) *kit.Verdict {
 	}
 	var stream []req
 	for _, li := range c.Lookups {
-		if li >= 0 && li < len(c.Lines) {
+		if li >= 0 && li < len(c.Lines) && c.Lines[li].V6 == "" {
 			stream = append(stream, req{c.Lines[li].IP, true})
 		} else {
 			a := uint32(0x0b000000 + len(stream))
+			if len(stream)%3 == 0 {
+				a = 0 // 0.0.0.0: what a missing gateway address collapses to
+			}
 			for last[a] != nil {
 				a++
 			}
@@ -368,7 +381,7 @@ func (g *c11ReqGen) GenerateRequests(ctx context.Context, r *scan.Range) (<-chan
 func TestC11CacheFile(t *testing.T) {
 	kit.Run(t, kit.Spec[c11FileCase]{
 		Prop: "C11",
-		Rule: "cache files of 1..400 lines (duplicate addresses, 4-byte and ::ffff: spellings, upper/lower-case MACs, unknown extra fields) loaded by arp.FillCache, then request streams (addresses in the file and not in it, 4- or 16-byte DstIP) resolved through arp.NewCacheRequestGenerator by 1..32 concurrent readers of the shared cache, gateway MAC present or absent, race detector on. Oracle: DstMAC = MAC of the last line for the request's own address, else the gateway MAC, else the request carries an error; destination unchanged; same count in and out. non-trivial: >=2 lines and >=2 lookups; distinct by case",
+		Rule: "cache files of 1..400 lines (duplicate addresses, 4-byte and ::ffff: spellings, upper/lower-case MACs, unknown extra fields, lines of IPv6 neighbours) loaded by arp.FillCache, then request streams (addresses in the file and not in it incl. 0.0.0.0, 4- or 16-byte DstIP) resolved through arp.NewCacheRequestGenerator by 1..32 concurrent readers of the shared cache, gateway MAC present or absent, race detector on. Oracle: DstMAC = MAC of the last line for the request's own address, else the gateway MAC, else the request carries an error; destination unchanged; same count in and out. non-trivial: >=2 lines and >=2 lookups; distinct by case",
 		Gen: func(t *rapid.T) c11FileCase {
 			c := c11FileCase{Gateway: rapid.Bool().Draw(t, "gw"), Readers: rapid.SampledFrom([]int{1, 2, 8, 32}).Draw(t, "readers"), Long16: rapid.Bool().Draw(t, "long16")}
 			c.Lines = c11GenLines(t, rapid.SampledFrom([]int{1, 2, 5, 20, 400}).Draw(t, "nlines"))
